@@ -122,7 +122,7 @@ type Evidence struct {
 }
 
 func writeEvidence(ev *Evidence) {
-	dir := filepath.Join(verifDir, "evidence")
+	dir := evidenceDir()
 	os.MkdirAll(dir, 0o755)
 	b, _ := json.MarshalIndent(ev, "", " ")
 	if err := os.WriteFile(filepath.Join(dir, ev.PropertyID+".json"), append(b, '\n'), 0o644); err != nil {
@@ -190,4 +190,18 @@ func sortedKeysOf[V any](m map[string]V) []string {
 	}
 	sort.Strings(ks)
 	return ks
+}
+
+func evidenceDir() string {
+	if d := os.Getenv("VERIF_EVIDENCE_DIR"); d != "" {
+		return d
+	}
+	return filepath.Join(verifDir, "evidence")
+}
+
+func replayDir() string {
+	if d := os.Getenv("VERIF_REPLAY_DIR"); d != "" {
+		return d
+	}
+	return filepath.Join(verifDir, "replays")
 }
